@@ -7,7 +7,8 @@ From Coq Require Import List ZArith Bool Arith.
 From FB Require Import Model.Exec Model.TraceSpec Model.ExecInv.
 From FB Require Import Model.Settle.
 From FB Require Proofs.ExecLife Proofs.ExecProps Proofs.ExecSpec Proofs.ExecTerminal Proofs.ExecProgress Proofs.ExecProgress2
-                Proofs.ExecProgress3 Proofs.ExecProgressFlat2.
+                Proofs.ExecProgress3 Proofs.ExecProgressFlat2 Proofs.ExecFinal.
+From FB Require Lib.Sexp Judge.E1.
 Import ListNotations.
 
 (* no interleaving makes the framework panic: no send on a closed channel, no double close *)
@@ -104,6 +105,13 @@ Theorem C03_every_started_table_is_live : forall cfgs,
   ExecProgress.live_net (flatten cfgs).
 Proof. exact ExecProgressFlat2.flatten_live. Qed.
 
+(* the end-of-run clauses (3,9)/(1,9)/(2,9) of the lockstep judge never fire on a clean end of the model: what the
+   source emitted was received or counted as discarded at every root, every failure at the node's handler *)
+Theorem C03_final_clauses_sound : forall nt tmo s,
+  ExecProps.good_net nt -> reachable nt tmo s -> mn s = MDone -> timedout s = false ->
+  E1.final_clauses nt (Sexp.T [Settle.snapshot s; Sexp.L (Z.of_nat (length (TraceSpec.emitted (tr s))))]) = [].
+Proof. exact ExecFinal.final_clauses_sound. Qed.
+
 Print Assumptions C03_no_panic.
 Print Assumptions C03_shutdown_at_most_once.
 Print Assumptions C03_shutdown_after_calls.
@@ -117,3 +125,4 @@ Print Assumptions C03_can_always_finish.
 Print Assumptions C03_every_run_ends_clean.
 Print Assumptions C03_maximal_run_is_clean.
 Print Assumptions C03_every_started_table_is_live.
+Print Assumptions C03_final_clauses_sound.
